@@ -233,3 +233,20 @@ where
         Err(e) => e,
     }
 }
+
+#[cfg(feature = "verif-hooks")]
+pub mod verif {
+    use super::*;
+
+    pub use super::message::InboundIn;
+    pub use super::message::OutboundIn;
+    pub use super::tcp::relay;
+
+    pub async fn relay_to<Si, St>(inbound_sink: &mut Si, inbound_stream: &mut St)
+    where
+        Si: Sink<OutboundIn, Error = anyhow::Error> + Unpin,
+        St: Stream<Item = Result<InboundIn, anyhow::Error>> + Unpin,
+    {
+        super::relay_to(inbound_sink, inbound_stream).await
+    }
+}
